@@ -15,27 +15,27 @@ CLAIMS = {
 
 CLAIMS.update({
  'C01': dict(
-   text="Deviation-bounded exhaustive schedule exploration (X1) of the real h2 client and the real h2 server joined by a simulated transport: for each scenario of a catalogue (header shapes incl. CONTINUATION, bodies from the boundary sizes, trailers, interim responses, push, windows 1/7, frame size 16385, send buffer 1/16/1024, vectored or plain writes, resets) every execution with 0, 1, 2 (quick) / 3 (thorough) deviations from the default schedule and transport answers is run to quiescence; API-level oracle (submitted vs received sequences per stream and direction, byte patterns, is_end_stream samples) plus wire-level cross-check with an independent frame parser and HPACK decoder.",
+   text="Deviation-bounded exhaustive schedule exploration (X1) of the real h2 client and the real h2 server joined by a simulated transport: for each scenario of a catalogue (header shapes incl. CONTINUATION, bodies from the boundary sizes, trailers, interim responses, push, windows 1/7, frame size 16385, send buffer 1/16/1024, vectored or plain writes, resets) every execution with 0, 1, 2 (quick) / 3 (thorough) deviations from the default schedule and transport answers is run to quiescence; API-level oracle (submitted vs received sequences per stream and direction, byte patterns, is_end_stream samples) plus wire-level cross-check with an independent frame parser and HPACK decoder. Besides the hand-written catalogue, a generated scenario set (covering array over 13 scenario dimensions: every pair, thorough every triple, of dimension values; 34 / 146 scenarios) is explored at deviation bound 1 (thorough 2) with the same judge.",
    note="Trusted: simulator (SimIo implements only the documented AsyncRead/AsyncWrite contract), h2wire reference parser/decoder. Content outside the scenario catalogue and executions beyond the completed deviation bound are not covered.",
    tech="stateless exhaustive exploration of bounded schedules / I/O chunkings of the real implementation (CHESS-style deviation bounding), oracle on every execution",
    design="3/C01"),
  'C02': dict(
-   text="Same explorer (X1) on window-centred scenarios (receiver lowers / raises INITIAL_WINDOW_SIZE mid-stream, client second SETTINGS, shared connection window, capacity API, target window change): at every DATA frame written by either real endpoint an independent wire accountant checks the frame against stream and connection credit reconstructed from the wire exactly as the property states (ACK position in the sender's own output; WINDOW_UPDATE counted when its last byte was read by the sender's transport).",
+   text="Same explorer (X1) on window-centred scenarios (receiver lowers / raises INITIAL_WINDOW_SIZE mid-stream, client second SETTINGS, shared connection window, capacity API, target window change): at every DATA frame written by either real endpoint an independent wire accountant checks the frame against stream and connection credit reconstructed from the wire exactly as the property states (ACK position in the sender's own output; WINDOW_UPDATE counted when its last byte was read by the sender's transport). Besides the hand-written catalogue, a generated scenario set (covering array over 13 scenario dimensions: every pair, thorough every triple, of dimension values; 34 / 146 scenarios) is explored at deviation bound 1 (thorough 2) with the same judge.",
    note="Trusted: wire accountant in monitor.rs. Window values outside the scenario catalogue, deeper deviation levels are not covered.",
    tech="stateless exhaustive exploration of bounded schedules of the real implementation with a wire-level reference accountant as invariant",
    design="3/C02"),
  'C04': dict(
-   text="Same explorer (X1): the complete output of each real endpoint in every explored execution is fed to an RFC 9113 5.1 sender automaton (id order/parity, HEADERS first, nothing on idle, frames permitted after own END_STREAM / RST_STREAM, trailers end the stream, header-block contiguity, stream-0 vs stream frames) on scenarios with parked requests (MAX_CONCURRENT_STREAMS 1), window 0, resets and drops at every position, push, 30 KB headers, and identifier exhaustion from 2^31-5 / -3 / -1.",
+   text="Same explorer (X1): the complete output of each real endpoint in every explored execution is fed to an RFC 9113 5.1 sender automaton (id order/parity, HEADERS first, nothing on idle, frames permitted after own END_STREAM / RST_STREAM, trailers end the stream, header-block contiguity, stream-0 vs stream frames) on scenarios with parked requests (MAX_CONCURRENT_STREAMS 1), window 0, resets and drops at every position, push, 30 KB headers, and identifier exhaustion from 2^31-5 / -3 / -1. Besides the hand-written catalogue, a generated scenario set (covering array over 13 scenario dimensions: every pair, thorough every triple, of dimension values; 34 / 146 scenarios) is explored at deviation bound 1 (thorough 2) with the same judge.",
    note="Peers are legal (both endpoints are h2). Frames mandated in answer to illegal input belong to C09.",
    tech="stateless exhaustive exploration of bounded schedules of the real implementation with a reference stream automaton on the wire",
    design="3/C04"),
  'C06': dict(
-   text="Same explorer (X1) under a strict executor (a task is polled only after its waker fired; every waker is a flag owned by the explorer): every execution with <= 2/3 deviations runs to quiescence, where (a) all scripted operations must have completed, (b) a forced poll of every still-pending task and of both connection tasks must not make progress (lost wakeup otherwise), (c) quiescence must come within a horizon (livelock otherwise). Scenarios add capacity reservations, parked requests, pings, window changes in both directions.",
+   text="Same explorer (X1) under a strict executor (a task is polled only after its waker fired; every waker is a flag owned by the explorer): every execution with <= 2/3 deviations runs to quiescence, where (a) all scripted operations must have completed, (b) a forced poll of every still-pending task and of both connection tasks must not make progress (lost wakeup otherwise), (c) quiescence must come within a horizon (livelock otherwise). Scenarios add capacity reservations, parked requests, pings, window changes in both directions. Besides the hand-written catalogue, a generated scenario set (covering array over 13 scenario dimensions: every pair, thorough every triple, of dimension values; 34 / 146 scenarios) is explored at deviation bound 1 (thorough 2) with the same judge.",
    note="Cooperating peer = the other real endpoint with applications that read, release and keep polling. Schedules beyond the completed deviation bound are not covered.",
    tech="stateless exhaustive exploration of bounded schedules under a controlled wake-only scheduler; quiescence oracle",
    design="3/C06"),
  'C17': dict(
-   text="Same explorer (X1) on reset / drop scenarios (client or server, after 0/1/2 chunks, parked request, window 0, reset memory expiring at once; codes 0, 8, 2^32-1 quick / nine codes thorough): at most one RST_STREAM per stream ever, exactly one when required, caller's code, placement after HEADERS, nothing of the stream after it, other streams complete, peer handles report origin/kind/code exactly. Plus exhaustive enumeration (X3) of error codes (both half-words completely in quick, all 2^32 in thorough) through the real RST_STREAM/GOAWAY encode, parse and h2::Error mapping against the independent frame codec.",
+   text="Same explorer (X1) on reset / drop scenarios (client or server, after 0/1/2 chunks, parked request, window 0, reset memory expiring at once; codes 0, 8, 2^32-1 quick / nine codes thorough): at most one RST_STREAM per stream ever, exactly one when required, caller's code, placement after HEADERS, nothing of the stream after it, other streams complete, peer handles report origin/kind/code exactly. Plus exhaustive enumeration (X3) of error codes (both half-words completely in quick, all 2^32 in thorough) through the real RST_STREAM/GOAWAY encode, parse and h2::Error mapping against the independent frame codec. Besides the hand-written catalogue, a generated scenario set (covering array over 13 scenario dimensions: every pair, thorough every triple, of dimension values; 34 / 146 scenarios) is explored at deviation bound 1 (thorough 2) with the same judge.",
    note="Trusted: simulator and h2wire. GOAWAY / I/O-failure surfacing on handles is judged by C07/C15.",
    tech="stateless exhaustive exploration of bounded schedules of the real implementation + exhaustive enumeration of the 32-bit code domain",
    design="3/C17"),
@@ -43,7 +43,7 @@ CLAIMS.update({
 
 CLAIMS.update({
  'C10': dict(
-   text="Explicit-state breadth-first search (X2) over the real hpack::Encoder, cloned per transition through the verif hook: events are every list of <= 2 (quick) / 3 (thorough) items from a 17-item alphabet built to force the table's paths (static full/name match, dynamic pseudo, same name/different value chains, sensitive, skip-value-index, names colliding in the robin-hood index modulo 8 and 16, value > 3/4 of the table, empty value, elided repeated names) and update_max_size(v); with limits {0,40,90,130} the canonical state space (index normalised by `inserted`) closes and is searched to fixpoint (exhaustive), with the default 4096 table it is depth-bounded. Every emitted block is decoded by the strict RFC 7541 reference and by h2's own decoder and compared with the submitted fields; reductions must be signalled at the start of the next block. Plus every CONTINUATION split limit through the real Headers::encode/Continuation::encode (X3).",
+   text="Explicit-state breadth-first search (X2) over the real hpack::Encoder, cloned per transition through the verif hook: events are every list of <= 2 (quick) / 3 (thorough) items from a 17-item alphabet built to force the table's paths (static full/name match, dynamic pseudo, same name/different value chains, sensitive, skip-value-index, names colliding in the robin-hood index modulo 8 and 16, value > 3/4 of the table, empty value, elided repeated names) and update_max_size(v); with limits {0,40,90,130} the canonical state space (index normalised by `inserted`) closes and is searched to fixpoint (exhaustive), with the default 4096 table it is depth-bounded. Every emitted block is decoded by the strict RFC 7541 reference and by h2's own decoder and compared with the submitted fields; reductions must be signalled at the start of the next block. Plus every CONTINUATION split limit through the real Headers::encode/Continuation::encode (X3). Plus an exhaustive sweep of every name / value length 0..600 (thorough 9000) for symbols of each Huffman code-length class, encoded before another field and again from the table.",
    note="Trusted: h2wire reference decoder; canonicalisation argument (behaviour depends on index+inserted only). Items outside the alphabet, deeper histories on the 4096-byte table not covered.",
    tech="explicit-state BFS to fixpoint over the real encoder with a reference decoder as oracle on every transition",
    design="3/C10"),
@@ -64,7 +64,7 @@ CLAIMS.update({
    tech="exhaustive enumeration of (state x input) catalogues and byte chunkings against the real endpoint with a robustness oracle",
    design="3/C08"),
  'C09': dict(
-   text="Exhaustive enumeration (X3) of (state x event) pairs on T2: 32 states per the stream life cycle in both roles (idle, open, half-closed either way, closed, locally reset remembered / forgotten, remotely reset, header block in progress, GOAWAY sent / received, reserved local / remote, request parked behind MAX_CONCURRENT_STREAMS, SETTINGS in flight, refused, push disabled) x ~78 events (1-4 raw frames: every type on the primary / an idle peer / an idle own stream / stream 0, size defects, flow-control overflows, header-block interleavings, padding, unknown types/flags/settings, push promises incl. empty fragment and promise-then-HEADERS). A reference classification computed from the wire history alone by RFC 9113 rules decides: connection error => GOAWAY with code; stream error => RST_STREAM or GOAWAY and a follow-up exchange completes; legal => no penalty, content delivered, follow-up completes; nothing of an illegal frame surfaces.",
+   text="Exhaustive enumeration (X3) of (state x event) pairs on T2: 32 states per the stream life cycle in both roles (idle, open, half-closed either way, closed, locally reset remembered / forgotten, remotely reset, header block in progress, GOAWAY sent / received, reserved local / remote, request parked behind MAX_CONCURRENT_STREAMS, SETTINGS in flight, refused, push disabled) x ~78 events (1-4 raw frames: every type on the primary / an idle peer / an idle own stream / stream 0, size defects, flow-control overflows, header-block interleavings, padding, unknown types/flags/settings, push promises incl. empty fragment and promise-then-HEADERS). A reference classification computed from the wire history alone by RFC 9113 rules decides: connection error => GOAWAY with code; stream error => RST_STREAM or GOAWAY and a follow-up exchange completes; legal => no penalty, content delivered, follow-up completes; nothing of an illegal frame surfaces. In addition every event is injected again after every one and every two (thorough: three, budget permitting) preceding events that are legal or plain stream errors and leave the connection in service (quick: 2.1 M chains): the state catalogue is thereby extended by everything two further peer events can reach; the client application also polls push promises, pushed responses and their bodies.",
    note="Error codes are not compared. MAY/SHOULD and 7540/9113 differences are 'unspecified'. Reference classifier in c09.rs is hand-written from the RFC.",
    tech="exhaustive enumeration of a state x event product against a reference protocol automaton",
    design="3/C09"),
@@ -72,8 +72,8 @@ CLAIMS.update({
 
 CLAIMS.update({
  'C13': dict(
-   text="Exhaustive enumeration (X3) on T2 of a header-list grammar: a valid base message with every single defect and every pair of defects (each pseudo-header dropped / duplicated / emptied / after a regular field, wrong-direction and unknown pseudo-headers, the five connection-specific fields, TE values, upper-case names via raw HPACK, content-length syntax), for requests (real server), responses, responses to HEAD, interim responses, trailers and promised requests (real client), CONNECT / extended CONNECT shapes with and without ENABLE_CONNECT_PROTOCOL, every DATA length pattern {0,1,n-1,n,n+1} x <= 2 frames x END_STREAM placement against content-length, and every single-defect request with its header block cut into HEADERS+CONTINUATION at every offset. An RFC 9113 section 8 validity predicate decides: malformed => nothing returned as Ok and the stream/connection failed; body mismatch => Err, not a clean end; well-formed => delivered intact (so rejecting everything does not pass). Send side: every send call (request, response, informational, push, trailers both ways) with each forbidden / permitted field must be refused / accepted and nothing forbidden may reach the wire.",
-   note="Predicate hand-written from RFC 9113 8.1-8.5, RFC 8441. Empty :authority and status 101 are 'unspecified'. One open known finding (response without :status delivered as 200).",
+   text="Exhaustive enumeration (X3) on T2 of a header-list grammar: a valid base message with every single defect and every pair of defects (each pseudo-header dropped / duplicated / emptied / after a regular field, wrong-direction and unknown pseudo-headers, the five connection-specific fields, TE values, upper-case names via raw HPACK, content-length syntax), for requests (real server), responses, responses to HEAD, interim responses, trailers and promised requests (real client), CONNECT / extended CONNECT shapes with and without ENABLE_CONNECT_PROTOCOL, every DATA length pattern {0,1,n-1,n,n+1} x <= 2 frames x END_STREAM placement against content-length, and every single-defect request with its header block cut into HEADERS+CONTINUATION at every offset. An RFC 9113 section 8 validity predicate decides: malformed => nothing returned as Ok and the stream/connection failed; body mismatch => Err, not a clean end; well-formed => delivered intact (so rejecting everything does not pass). Send side: every send call (request, response, informational, push, trailers both ways) with each forbidden / permitted field must be refused / accepted and nothing forbidden may reach the wire. Beyond pairs: every combination of up to 4 (thorough 5) defects for requests / responses / interim responses; every verdict again with the block Huffman-coded, incrementally indexed or both, and cut into HEADERS / PUSH_PROMISE + CONTINUATION at every offset for every message kind; after every request case a following well-formed request must be delivered intact.",
+   note="Predicate hand-written from RFC 9113 8.1-8.5, RFC 8441. Empty :authority and status 101 are 'unspecified'. Open known findings: response / interim response without :status delivered as 200; trailers carrying pseudo-header fields delivered (see known_findings.json).",
    tech="exhaustive enumeration of an input grammar against a reference validity predicate, on the real endpoints",
    design="3/C13"),
 })
@@ -115,7 +115,7 @@ CLAIMS.update({
    tech="explicit-state BFS over the real implementation with canonical state hashing; resource-bound invariants read through a snapshot hook; directed long runs",
    design="3/C18"),
  'C19': dict(
-   text="Explicit-state breadth-first search (X2) over the real client (2-3 streams, two SendRequest clones; reset memory 'never expires' and 'expires at once'): request with / without body, END_STREAM, peer response (with / without END_STREAM), peer DATA END_STREAM, peer RST_STREAM, poll the response, read, client reset, drop of ResponseFuture / SendStream / RecvStream / a SendRequest clone in every order relative to connection polls, time passing (quick: depth 8, 1.2 M executions). Epilogue from every new state: both sides finish every stream, every stream handle is dropped, quiescence - then the snapshot hook must show no stream record beyond <= 2 remembered local resets (none once expired), both counters 0, empty buffers, no in-flight octets, the whole connection send window unassigned; then the last SendRequest is dropped and the connection must have been woken, send GOAWAY(NO_ERROR), shut the transport down and return Ok(()). Panics ('dangling store key', drop assertions) are violations.",
+   text="Explicit-state breadth-first search (X2) over the real client (2-3 streams, two SendRequest clones; reset memory 'never expires' and 'expires at once'): request with / without body, END_STREAM, peer response (with / without END_STREAM), peer DATA END_STREAM, peer RST_STREAM, poll the response, read, client reset, drop of ResponseFuture / SendStream / RecvStream / a SendRequest clone in every order relative to connection polls, time passing (quick: depth 8, 1.2 M executions). Epilogue from every new state: both sides finish every stream, every stream handle is dropped, quiescence - then the snapshot hook must show no stream record beyond <= 2 remembered local resets (none once expired), both counters 0, empty buffers, no in-flight octets, the whole connection send window unassigned; then the last SendRequest is dropped and the connection must have been woken, send GOAWAY(NO_ERROR), shut the transport down and return Ok(()). Panics ('dangling store key', drop assertions) are violations. A third model starts from an exchange complete on the wire but unread; the client's stream window is 6 so that releasing a body crosses the WINDOW_UPDATE threshold.",
    note="Server-side release of records is covered by C18 / C05 models; this model is client-side because the idle-close clause is.",
    tech="explicit-state BFS over the real implementation with canonical state hashing; leak oracle read through a snapshot hook from every new state",
    design="3/C19"),
@@ -123,7 +123,7 @@ CLAIMS.update({
 
 CLAIMS.update({
  'C15': dict(
-   text="Explicit-state breadth-first search (X2) over the real endpoints against a scripted peer, both roles. Server with two accepted streams: graceful_shutdown, abrupt_shutdown(code), respond, push_request, handle drops; the peer opens further streams racing the GOAWAY, acknowledges the shutdown PING early or late, finishes its requests, sends its own GOAWAY (quick: depth 8, 0.9 M executions). Invariants in every state: last-stream-ids of emitted GOAWAYs never increase and are never below a stream already returned by accept(); after GOAWAY(L) peer streams above L are neither surfaced nor answered; push_request fails once the peer's GOAWAY was processed. Epilogue from every new state: graceful shutdown = GOAWAY(2^31-1), PING, after the ACK GOAWAY(last processed), every accepted stream answered, transport shut down, Ok(()). Client with two requests in flight: up to two peer GOAWAYs (last-stream-id 0/1/3/5/2^31-1, codes 0/2/0xdeadbeef, with/without debug data, never increasing), responses, EOF, new requests, poll_ready, response polls. Invariants: no send_request / poll_ready success and no new HEADERS once the GOAWAY was processed; streams above L fail with origin remote / kind GOAWAY / the peer's code and debug data. Epilogue: streams <= L complete when answered, nothing stays pending, the connection result carries the peer's code and debug data.",
+   text="Explicit-state breadth-first search (X2) over the real endpoints against a scripted peer, both roles. Server with two accepted streams: graceful_shutdown, abrupt_shutdown(code), respond, push_request, handle drops; the peer opens further streams racing the GOAWAY, acknowledges the shutdown PING early or late, finishes its requests, sends its own GOAWAY (quick: depth 8). Invariants in every state: last-stream-ids of emitted GOAWAYs never increase and are never below a stream already returned by accept(); after GOAWAY(L) peer streams above L are neither surfaced nor answered; push_request fails once the peer's GOAWAY was processed. Epilogue from every new state: graceful shutdown = GOAWAY(2^31-1), PING, after the ACK GOAWAY(last processed), every accepted stream answered, transport shut down, Ok(()). Client with two requests in flight: up to two peer GOAWAYs (last-stream-id 0/1/3/5/2^31-1, codes 0/2/0xdeadbeef, with/without debug data, never increasing), responses, EOF, new requests, poll_ready, response polls. Invariants: no send_request / poll_ready success and no new HEADERS once the GOAWAY was processed; streams above L fail with origin remote / kind GOAWAY / the peer's code and debug data. Epilogue: streams <= L complete when answered, nothing stays pending, the connection result carries the peer's code and debug data.",
    note="The reaction to a peer that raises its last-stream-id is unspecified and not part of the alphabet. Byte-level chunking of GOAWAY frames is covered by C09/C12, not here.",
    tech="explicit-state BFS over the real implementation with canonical state hashing, both roles against a scripted peer; epilogue (drain to completion) from every new state",
    design="3/C15"),
@@ -176,6 +176,8 @@ m = {
  "engines": [
    {"name": "h2verif", "path": "/verif/engine", "serves_properties": sorted(k for k, c in CLAIMS.items() if c.get('engine', 'h2verif') == 'h2verif'),
     "kind_free_text": "Rust harness around the real h2 crate: deterministic simulator hosting real client/server endpoints, exhaustive explorers (deviation-bounded schedules, explicit-state BFS, finite-domain enumeration), independent RFC 9113 / RFC 7541 oracles (h2wire)"},
+   {"name": "pingloom", "path": "/verif/pingloom", "serves_properties": ["C20"],
+    "kind_free_text": "loom models over the real text of /repo/src/proto/ping_pong.rs (build.rs redirects its atomics to loom); run by the C20 check of h2verif, one child process per model"},
  ],
  "checks": checks,
  "not_applicable": na,
